@@ -22,6 +22,7 @@ mod c15;
 mod c16;
 mod c17;
 mod c18;
+mod c20;
 mod c19;
 mod prog;
 
@@ -135,6 +136,8 @@ fn main() {
         "c17" => c17::run(&ctx),
         #[cfg(not(feature = "inproc"))]
         "c18" => c18::run(&ctx),
+        #[cfg(feature = "async")]
+        "c20" => c20::run(&ctx),
         "c19" => c19::run(&ctx),
         "c19dump" => c19::dump(&ctx),
         _ => {
